@@ -27,6 +27,7 @@ func main() { common.Main("C11", runC11) }
 // ---------------------------------------------------------------- operations
 // token syntax (no spaces; '=' and ';' never occur in a canonical value):
 //   S=<k>=<v>  G=<k>  D=<k>  A=<n0>=<M{..}>  P=<n0>=<M{..}>  F  R  X=<lo>=<hi>  L  I  Q=<n0>=<M{..}>
+//   T=<k1>=<v1>=<k2>=<v2>...   (map literal of the written pairs, evaluated from source; replaces the state)
 // A: m = m + right, P: m = left + m, Q: Equals / Cmp with another map; the other map is built by
 // NewMapSize(n0) followed by Set of the listed pairs in the listed order.
 type op struct {
@@ -35,6 +36,7 @@ type op struct {
 	n0     int
 	other  string // canonical literal of the operand map
 	lo, hi int
+	items  []object.Object // T: written pairs k1 v1 k2 v2 ... of a map literal
 	tok    string
 }
 
@@ -44,6 +46,16 @@ func opK(kind byte, k object.Object) op {
 }
 func opM(kind byte, n0 int, lit string) op {
 	return op{kind: kind, n0: n0, other: lit, tok: fmt.Sprintf("%c=%d=%s", kind, n0, lit)}
+}
+
+// opT: the state becomes the map literal { k1:v1, k2:v2, ... } (written order, repeats allowed), evaluated by
+// the real interpreter from source text.
+func opT(items []object.Object) op {
+	tok := "T"
+	for _, it := range items {
+		tok += "=" + Canon(it)
+	}
+	return op{kind: 'T', items: items, tok: tok}
 }
 func opX(lo, hi int) op { return op{kind: 'X', lo: lo, hi: hi, tok: fmt.Sprintf("X=%d=%d", lo, hi)} }
 func op0(kind byte) op  { return op{kind: kind, tok: string(kind)} }
@@ -80,6 +92,19 @@ func parseOp(t string) (op, bool) {
 		return opX(lo, hi), e1 == nil && e2 == nil
 	case 'F', 'R', 'L', 'I':
 		return op0(t[0]), len(t) == 1
+	case 'T':
+		if len(f)%2 != 1 {
+			return bad, false
+		}
+		var items []object.Object
+		for _, x := range f[1:] {
+			o, ok := ParseCanon(x)
+			if !ok {
+				return bad, false
+			}
+			items = append(items, o)
+		}
+		return opT(items), true
 	}
 	return bad, false
 }
@@ -188,6 +213,16 @@ func applyAPI(m object.Map, o op) (res object.Map, obs string) {
 	case 'Q':
 		other := buildLit(o.n0, o.other)
 		r = fmt.Sprintf("e%dc%d", b2i(object.Equals(m, other)), object.Cmp(m, other))
+	case 'T':
+		x, pan := evalLiteral(o.items, false)
+		if pan != "" {
+			return res, "P"
+		}
+		y, ok := x.(object.Map)
+		if !ok {
+			return res, stateStr(res) + "|ERR"
+		}
+		res = y
 	}
 	return res, stateStr(res) + "|" + r
 }
@@ -332,6 +367,11 @@ func refApply(r *refMap, o op) (*refMap, string) {
 		x := refOfLit(o.other)
 		c := cmpRef(r, x)
 		res = fmt.Sprintf("e%dc%d", b2i(c == 0), c)
+	case 'T': // a literal is its pairs set one after the other: the last written value of a key wins
+		r = &refMap{}
+		for i := 0; i+1 < len(o.items); i += 2 {
+			r.set(o.items[i], o.items[i+1])
+		}
 	}
 	return r, r.canon() + "|" + res
 }
@@ -354,12 +394,107 @@ func evalSrc(code string) (res object.Object, pan string) {
 	return r, ""
 }
 
+var litItems []object.Object // what ul(i) returns
+
+// srcText: grol source text of a value, when it has a literal form.
+func srcText(o object.Object) (string, bool) {
+	switch v := o.(type) {
+	case object.Integer:
+		if v.Value < 0 {
+			if v.Value == -9223372036854775808 {
+				return "(-9223372036854775807-1)", true
+			}
+			return fmt.Sprintf("(%d)", v.Value), true
+		}
+		return fmt.Sprintf("%d", v.Value), true
+	case object.Float:
+		f := v.Value
+		if f != f || f > 1e15 || f < -1e15 || (f == 0 && 1/f < 0) {
+			return "", false
+		}
+		t := strconv.FormatFloat(f, 'f', -1, 64)
+		if !strings.Contains(t, ".") {
+			t += ".0"
+		}
+		if f < 0 {
+			t = "(" + t + ")"
+		}
+		return t, true
+	case object.Boolean:
+		return strconv.FormatBool(v.Value), true
+	case object.Null:
+		return "nil", true
+	case object.String:
+		for i := 0; i < len(v.Value); i++ {
+			if c := v.Value[i]; c < 32 || c > 126 || c == '"' || c == '\\' {
+				return "", false
+			}
+		}
+		return `"` + v.Value + `"`, true
+	case object.SmallArray, object.BigArray:
+		var parts []string
+		for _, e := range object.Elements(o) {
+			t, ok := srcText(e)
+			if !ok {
+				return "", false
+			}
+			parts = append(parts, t)
+		}
+		return "[" + strings.Join(parts, ",") + "]", true
+	}
+	return "", false
+}
+
+// literalSource: the source text of the literal; textual = keys and values written as grol literals,
+// otherwise every item is injected as the real object through the extension ul(i).
+func literalSource(items []object.Object, textual bool) (string, bool) {
+	var parts []string
+	for i := 0; i+1 < len(items); i += 2 {
+		k, v := fmt.Sprintf("ul(%d)", i), fmt.Sprintf("ul(%d)", i+1)
+		if textual {
+			var ok1, ok2 bool
+			k, ok1 = srcText(items[i])
+			v, ok2 = srcText(items[i+1])
+			if !ok1 || !ok2 {
+				return "", false
+			}
+		}
+		parts = append(parts, k+":"+v)
+	}
+	return "{" + strings.Join(parts, ",") + "}", true
+}
+
+// evalLiteral evaluates the map literal with the real interpreter.
+func evalLiteral(items []object.Object, textual bool) (object.Object, string) {
+	src, ok := literalSource(items, textual)
+	if !ok {
+		return nil, "no-literal-form"
+	}
+	litItems = items
+	state.Out = &strings.Builder{}
+	return evalSrc("[" + src + "]" + "[0]")
+}
+
 // srcApply: "<state>|<result>" as applyAPI, computed by the evaluator from the same starting map.
 func srcApply(mk func() object.Map, o op) string {
-	injMap = func() object.Object { return mk() }
+	pre := mk() // built before the evaluation starts: a path may itself need the interpreter (literals)
+	injMap = func() object.Object { return pre }
 	injK, injV = o.k, o.v
 	if o.kind == 'A' || o.kind == 'P' || o.kind == 'Q' {
 		injO = buildLit(o.n0, o.other)
+	}
+	if o.kind == 'T' { // the API route already is source with injected objects: here the same literal written as text
+		x, pan := evalLiteral(o.items, true)
+		if pan == "no-literal-form" {
+			x, pan = evalLiteral(o.items, false)
+		}
+		if pan != "" {
+			return "P"
+		}
+		if _, ok := x.(object.Map); !ok {
+			return "ERR:" + Canon(x)
+		}
+		return stateStr(x) + "|-"
 	}
 	var code string
 	switch o.kind {
@@ -448,7 +583,8 @@ func srcApply(mk func() object.Map, o op) string {
 
 // iteration and keys() through source on the map produced by mk
 func srcIterate(mk func() object.Map) (keys string, count string) {
-	injMap = func() object.Object { return mk() }
+	pre := mk()
+	injMap = func() object.Object { return pre }
 	state.Out = &strings.Builder{}
 	r, pan := evalSrc("[keys(um())]")
 	if pan != "" {
@@ -458,6 +594,7 @@ func srcIterate(mk func() object.Map) (keys string, count string) {
 	} else {
 		keys = "ERR:" + Canon(r)
 	}
+	pre = mk()
 	r, pan = evalSrc("n=0;for kv=um(){n=n+1};n")
 	if pan != "" {
 		count = "P"
@@ -474,7 +611,12 @@ type explorer struct {
 	doSource bool
 }
 
-func opName(o op) string { return string(o.kind) }
+func opName(o op) string {
+	if o.kind == 'T' {
+		return "literal"
+	}
+	return string(o.kind)
+}
 
 // check runs op from the state reached by (n0, path): API observation (returned for the correspondence case),
 // reference map, source path.
@@ -563,7 +705,7 @@ func (e *explorer) check(n0 int, path []op, o op, caseStr func() string) (object
 			}
 			c.Fail(sig, caseStr(), fmt.Sprintf("%s from %s: source %s, API %s", o.tok, baseStr, got, obs))
 		}
-		if o.kind == 'S' || o.kind == 'D' || o.kind == 'A' || o.kind == 'P' || o.kind == 'R' || o.kind == 'X' {
+		if o.kind == 'S' || o.kind == 'D' || o.kind == 'A' || o.kind == 'P' || o.kind == 'R' || o.kind == 'X' || o.kind == 'T' {
 			mkAfter := func() object.Map { m, _ := applyAPI(replay(n0, path), o); return m }
 			ks, cnt := srcIterate(mkAfter)
 			var want []string
@@ -748,6 +890,175 @@ func (e *explorer) randomSeq(pool, vals []object.Object, length int) {
 	c.Case(fmt.Sprintf("SEQ %d %s", n0, strings.Join(toks, " ")), strings.Join(obss[:len(path)], " "))
 }
 
+// ---------------------------------------------------------------- map literals as a construction route
+// placements of m copies of the repeated key among n written pairs
+func placements(n, m int) [][]int {
+	if m <= 1 {
+		return [][]int{{0}}
+	}
+	uniq := map[string]bool{}
+	var res [][]int
+	add := func(p []int) {
+		sort.Ints(p)
+		for i := 1; i < len(p); i++ {
+			if p[i] == p[i-1] {
+				return
+			}
+		}
+		k := fmt.Sprint(p)
+		if !uniq[k] {
+			uniq[k] = true
+			res = append(res, p)
+		}
+	}
+	front, back, mid, spread, ends := make([]int, m), make([]int, m), make([]int, m), make([]int, m), make([]int, m)
+	for i := 0; i < m; i++ {
+		front[i] = i
+		back[i] = n - m + i
+		mid[i] = (n-m)/2 + i
+		spread[i] = i * (n - 1) / (m - 1)
+		ends[i] = i
+	}
+	ends[m-1] = n - 1 // first (and the ones right after it) and last
+	add(front)
+	add(back)
+	add(mid)
+	add(spread)
+	add(ends)
+	return res
+}
+
+func (e *explorer) literalCase(items []object.Object, full bool) {
+	c := e.c
+	t := opT(items)
+	// distinct key classes written, for lookups
+	ref := &refMap{}
+	for i := 0; i+1 < len(items); i += 2 {
+		ref.set(items[i], items[i+1])
+	}
+	e.keys = append(append([]object.Object(nil), ref.ks...), musts("I1", "F3ff0000000000000", "I9")...)
+	cs0 := func() string { return "MAP 0 - " + t.tok }
+	_, obs := e.check(0, nil, t, cs0)
+	c.Case("MAP 0 - "+t.tok, obs)
+	c.Count(fmt.Sprintf("literal:pairs=%d:keys=%d", len(items)/2, len(ref.ks)))
+	if len(items)/2 > len(ref.ks) {
+		c.NonTrivial("lit|" + t.tok)
+	}
+	if obs == "P" || strings.HasSuffix(obs, "|ERR") {
+		return
+	}
+	var ops []op
+	for _, k := range e.keys {
+		ops = append(ops, opK('G', k))
+	}
+	ops = append(ops, op0('L'), op0('I'), op0('F'), op0('R'))
+	if full && len(items) > 0 {
+		rk := items[0]
+		ops = append(ops, opS(rk, must("I7")), opS(must("I9"), must("S78")), opK('D', rk),
+			opM('A', 0, "M{"+Canon(rk)+":S78,I9:I7}"), opM('P', 0, "M{"+Canon(rk)+":S78}"), opM('A', 0, "M{}"),
+			opX(0, len(ref.ks)/2), opX(len(ref.ks)/2, len(ref.ks)), opM('Q', 0, ref.canon()), opM('Q', 9, ref.canon()))
+	}
+	path := []op{t}
+	var toks, obss []string
+	for _, o := range ops {
+		o := o
+		_, ob := e.check(0, path, o, func() string { return "MAP 0 " + t.tok + " " + o.tok })
+		toks = append(toks, o.tok)
+		obss = append(obss, ob)
+	}
+	c.Case("MAP 0 "+t.tok+" "+strings.Join(toks, " "), strings.Join(obss, " "))
+	// one program: literal, then index assignment, then + with a second literal that repeats a key too
+	if full && len(items) > 0 {
+		k2, v2 := items[len(items)-2], must("S7a")
+		lit2 := []object.Object{must("I9"), must("I1"), k2, must("I2"), must("I9"), must("I3")}
+		all := append(append(append([]object.Object(nil), items...), k2, v2), lit2...)
+		src1, _ := literalSource(items, false)
+		n := len(items)
+		code := fmt.Sprintf("m=%s;m[ul(%d)]=ul(%d);m=m+{ul(%d):ul(%d),ul(%d):ul(%d),ul(%d):ul(%d)};[m][0]", src1, n, n+1, n+2, n+3, n+4, n+5, n+6, n+7)
+		litItems = all
+		state.Out = &strings.Builder{}
+		r, pan := evalSrc(code)
+		c.Eval()
+		want := ref.clone()
+		want.set(k2, v2)
+		for i := 0; i+1 < len(lit2); i += 2 {
+			want.set(lit2[i], lit2[i+1])
+		}
+		cs := "PROG " + code + " with " + t.tok
+		if pan != "" {
+			c.Fail("literal-assign-merge-panic", cs, pan)
+		} else if got := Canon(r); got != want.canon() {
+			c.Fail("literal-assign-merge-differs-from-reference", cs, "got "+got+" reference "+want.canon())
+		}
+	}
+}
+
+func (e *explorer) literals() {
+	c := e.c
+	fillers := musts("I2", "F3ff8000000000000", "S61", "N", "A[I1]", "B1", "I3", "S62", "I4", "I5", "S6162", "I6")
+	variants := [][]object.Object{
+		musts("I1"), musts("I1", "F3ff0000000000000"), musts("F3ff0000000000000", "I1"), musts("S6b"), musts("N"), musts("A[I1]"), musts("F4004000000000000"),
+	}
+	orders := 1
+	if c.Thorough() {
+		orders = 2
+	}
+	val := func(j int) object.Object { return object.Integer{Value: int64(100 + j)} }
+	e.literalCase(nil, true) // {}
+	for n := 1; n <= 12; n++ {
+		for m := 1; m <= 5 && m <= n; m++ {
+			for vi, variant := range variants {
+				if m == 1 && vi > 0 {
+					continue
+				}
+				var fl []object.Object
+				for _, f := range fillers {
+					if object.Cmp(f, variant[0]) != 0 {
+						fl = append(fl, f)
+					}
+				}
+				for _, pl := range placements(n, m) {
+					for ord := 0; ord < orders; ord++ {
+						at := map[int]int{}
+						for i, p := range pl {
+							at[p] = i
+						}
+						var items []object.Object
+						fi := 0
+						for j := 0; j < n; j++ {
+							if i, ok := at[j]; ok {
+								items = append(items, variant[i%len(variant)], val(j))
+								continue
+							}
+							f := fl[fi%len(fl)]
+							if ord == 1 {
+								f = fl[(len(fl)-1-fi)%len(fl)]
+							}
+							fi++
+							items = append(items, f, val(j))
+						}
+						e.literalCase(items, true)
+					}
+				}
+			}
+		}
+	}
+	// random literals over a small key pool (repeats of several keys, aliases 1/1.0 and 2/2.0)
+	pool := musts("I1", "F3ff0000000000000", "I2", "F4000000000000000", "S61", "N", "A[I1]", "F3ff8000000000000", "B0")
+	cnt := 150
+	if c.Thorough() {
+		cnt = 4000
+	}
+	for i := 0; i < cnt && len(c.Failures) < 2000; i++ {
+		n := c.R.Intn(13)
+		var items []object.Object
+		for j := 0; j < n; j++ {
+			items = append(items, pool[c.R.Intn(len(pool))], val(j))
+		}
+		e.literalCase(items, c.R.Pct(30))
+	}
+}
+
 func must(s string) object.Object {
 	o, ok := ParseCanon(s)
 	if !ok {
@@ -786,6 +1097,10 @@ func runC11(c *Ctx) {
 	reg("uk", func() object.Object { return injK })
 	reg("uw", func() object.Object { return injV })
 	reg("uo", func() object.Object { return injO })
+	if err := object.CreateFunction(object.Extension{Name: "ul", MinArgs: 1, MaxArgs: 1, ArgTypes: []object.Type{object.INTEGER},
+		Callback: func(_ any, _ string, args []object.Object) object.Object { return litItems[args[0].(object.Integer).Value] }}); err != nil {
+		panic(err)
+	}
 	e := &explorer{c: c, doSource: true}
 	if c.ReplayCase != "" {
 		c11Replay(e, c.ReplayCase)
@@ -801,6 +1116,12 @@ func runC11(c *Ctx) {
 		_, obs := e.check(0, path, o, func() string { return "MAP 0 " + pathStr(path) + " " + oo.tok })
 		c.Case("MAP 0 "+pathStr(path)+" "+o.tok, obs)
 	}
+	// map literals (0..12 written pairs, a key repeated 1..5 times at the front / back / middle / spread / both ends,
+	// int / float aliases of one key class, small and large literals), each followed by every kind of operation
+	// two witnesses of a literal that keeps the wrong value of a repeated key first
+	e.literalCase(musts("I1", "S61", "I2", "S62", "I3", "S63", "I4", "S64", "I1", "S7a"), true)
+	e.literalCase(musts("S6b", "I1", "S6b", "I2", "S6b", "I3", "S6b", "I4", "S6b", "I5"), true)
+	e.literals()
 	// keys: 5 (quick) or 7 (thorough) distinct key classes of mixed types
 	keys := musts("I1", "F3ff8000000000000", "S61", "N", "A[I1]")
 	probes := musts("F3ff0000000000000", "I9") // 1.0: same class as 1; 9: never stored... unless set through it
